@@ -5,7 +5,7 @@
 From Coq Require Import List ZArith Lia Bool Arith.
 Import ListNotations.
 Require Import Vault Vaultproof Vaultproof2 Vaultproof3 Row Table Grid Tableabs
-               Tableproof Tableproof2 Tableproof3 Tableproof4 Tableproof5 Tableproof6 Tableproof7.
+               Tableproof Tableproof2 Tableproof3 Tableproof4 Tableproof5 Tableproof6 Tableproof7 Tableproof8 Tablerefuted.
 Open Scope Z_scope.
 
 (* ---- the full statement: after ANY history of the modelled operations on ANY well-formed run-length state,
@@ -78,6 +78,77 @@ Theorem C01_row_step : forall (v : rruns) (o : rop), wf v -> rop_ok o ->
   exists v', rstep v o = Some v' /\ expand v' = lstep (expand v) o /\ wf v'.
 Proof. exact rstep_refines. Qed.
 Print Assumptions C01_row_step.
+
+(* ---- locality: "an operation addressed to one row or one cell changes that row or cell only, even when it is
+        stored as part of a repeated run, and a column insertion or deletion shifts every row alike".
+        g_cell x y g = the cell read at (x,y) of the grid, empty outside what is stored. ---- *)
+Theorem C01_set_cell_changes_those_cells_only : forall (t : tstate) (x y : Z) (c : nat * cell) (t' : tstate),
+  WF t -> (1 <= fst c)%nat -> t_step t (OSetCell x y c) = Some t' ->
+  forall x' y', 0 <= x' -> 0 <= y' ->
+  g_cell x' y' (abs_t t') =
+    if (y' =? ny y t) && (nx x t <=? x') && (x' <? nx x t + Z.of_nat (fst c)) then snd c else g_cell x' y' (abs_t t).
+Proof. exact set_cell_local. Qed.
+Print Assumptions C01_set_cell_changes_those_cells_only.
+
+Theorem C01_cell_ops_change_that_row_only : forall (t : tstate) (o : top) (y : Z) (t' : tstate),
+  WF t -> op_ok o ->
+  (exists x c, o = OSetCell x y c \/ o = OInsertCell x y c \/ o = OAppendCell y c \/ o = ODeleteCell x y) ->
+  t_step t o = Some t' -> forall y', 0 <= y' -> y' <> ny y t -> g_row y' (abs_t t') = g_row y' (abs_t t).
+Proof. exact cell_ops_change_that_row_only. Qed.
+Print Assumptions C01_cell_ops_change_that_row_only.
+
+Theorem C01_insert_column_shifts_every_row : forall (t : tstate) (x : Z) (rep : nat) (st : Z) (t' : tstate),
+  WF t -> (1 <= rep)%nat -> t_step t (OInsertColumn x rep st) = Some t' ->
+  forall x' y', 0 <= x' ->
+  g_cell x' y' (abs_t t') = if x' <? nx x t then g_cell x' y' (abs_t t)
+                            else if x' <? nx x t + Z.of_nat rep then empty_cell else g_cell (x' - Z.of_nat rep) y' (abs_t t).
+Proof. exact insert_column_shifts. Qed.
+Print Assumptions C01_insert_column_shifts_every_row.
+
+Theorem C01_delete_column_shifts_every_row : forall (t : tstate) (x : Z) (t' : tstate),
+  WF t -> nx x t < twidth t -> t_step t (ODeleteColumn x) = Some t' ->
+  forall x' y', 0 <= x' ->
+  g_cell x' y' (abs_t t') = if x' <? nx x t then g_cell x' y' (abs_t t) else g_cell (x' + 1) y' (abs_t t).
+Proof. exact delete_column_shifts. Qed.
+Print Assumptions C01_delete_column_shifts_every_row.
+
+(* ---- refuted: the faithful model of the PINNED code (before fixes/F01..F04) violates the statements above ---- *)
+Theorem vault_set_pinned_refuted : exists (v : rruns) (p : Z) (x : nat * cell),
+  wf v /\ 0 <= p < Z.of_nat (width v) /\ (1 <= fst x)%nat /\
+  exists v', set_item_pinned 0 p x v (cmap v) = Some v' /\
+    expand v' <> firstn (Z.to_nat p) (expand v) ++ repeat (snd x) (fst x) ++ skipn (Z.to_nat p + fst x) (expand v).
+Proof. exact vault_set_pinned_refuted_w. Qed.
+Print Assumptions vault_set_pinned_refuted.
+
+Theorem vault_set_map_pinned_refuted : exists (v : rruns) (p : Z) (x : nat * cell),
+  wf v /\ 0 <= p < Z.of_nat (width v) /\ (1 <= fst x)%nat /\
+  exists v' m', set_item_pinned 0 p x v (cmap v) = Some v' /\ set_map_pinned p (fst x) (cmap v) = Some m' /\ m' <> cmap v'.
+Proof. exact vault_set_map_pinned_refuted_w. Qed.
+Print Assumptions vault_set_map_pinned_refuted.
+
+Theorem set_row_pinned_refuted : exists (t : tstate) (y : Z) (rep : nat) (r : rowx),
+  WF t /\ 0 <= y /\ (1 <= rep)%nat /\ rwf r /\
+  exists t', set_row_pinned y rep r t = Some t' /\ abs_t t' <> g_set_row y rep (grow_of r) (abs_t t).
+Proof. exact set_row_pinned_refuted_w. Qed.
+Print Assumptions set_row_pinned_refuted.
+
+Theorem append_cell_pinned_refuted : exists (t : tstate) (y : Z) (c : nat * cell),
+  WF t /\ 0 <= y /\ (1 <= fst c)%nat /\
+  exists t', t_append_cell_pinned y c t = Some t' /\ abs_t t' <> g_append_cell y c (abs_t t).
+Proof. exact append_cell_pinned_refuted_w. Qed.
+Print Assumptions append_cell_pinned_refuted.
+
+Theorem delete_cell_pinned_refuted : exists (t : tstate) (x y : Z),
+  WF t /\ 0 <= x /\ 0 <= y /\
+  exists t', t_delete_cell_pinned x y t = Some t' /\ abs_t t' <> g_delete_cell x y (abs_t t).
+Proof. exact delete_cell_pinned_refuted_w. Qed.
+Print Assumptions delete_cell_pinned_refuted.
+
+Theorem delete_column_pinned_refuted : exists (t : tstate) (x : Z),
+  WF t /\ 0 <= x /\
+  exists t', t_delete_column_pinned x t = Some t' /\ abs_t t' <> g_delete_column x (abs_t t).
+Proof. exact delete_column_pinned_refuted_w. Qed.
+Print Assumptions delete_column_pinned_refuted.
 
 (* ---- the hypotheses are inhabited: the empty table; a table with a 3-times repeated row whose middle cells
         are a 2-times repeated run ---- *)
